@@ -2,7 +2,8 @@ from __future__ import annotations
 
 from distreqx import distributions
 from jax import numpy as jnp
-from jaxtyping import Array, ArrayLike, Bool, Float, Integer
+from jax import random as jr
+from jaxtyping import Array, ArrayLike, Bool, Float, Integer, Key
 
 from .base_distribution import AbstractDistreqxWrapper, AbstractMaskableDistribution
 
@@ -41,6 +42,20 @@ class Categorical(
     @property
     def probs(self) -> Float[Array, " dims"]:
         return self.distribution.probs
+
+    # distreqx casts samples and modes to int8, which wraps around for more
+    # than 128 classes; index with the default integer type instead.
+    def sample(self, key: Key[Array, ""]) -> Integer[Array, ""]:
+        return jr.categorical(key, self.logits, axis=-1)
+
+    def mode(self) -> Integer[Array, ""]:
+        return jnp.argmax(self.logits, axis=-1)
+
+    def sample_and_log_prob(
+        self, key: Key[Array, ""]
+    ) -> tuple[Integer[Array, ""], Float[Array, ""]]:
+        sample = self.sample(key)
+        return sample, self.log_prob(sample)
 
     def mask(self, mask: Bool[Array, " dims"]) -> Categorical:
         masked_logits = jnp.where(mask, self.logits, -jnp.inf)
